@@ -53,16 +53,26 @@ func (w *world) daemonRestart(s *snapshot, root string) (out daemonOutcome, err 
 	defer os.RemoveAll(work)
 	ctx, cancel := context.WithTimeout(context.Background(), 30*time.Second)
 	defer cancel()
-	_, port, _ := net.SplitHostPort(freeAddr())
-	conf := core.NewConfig(w.log,
-		core.WithConfigFolder(work),
-		core.WithPrivateListenAddress(freeAddr()),
-		core.WithControlPort(port),
-		core.WithDBStorageEngine(chain.BoltDB),
-	)
-	dd, err := core.NewDrandDaemon(ctx, conf)
-	if err != nil {
-		return out, fmt.Errorf("NewDrandDaemon: %w", err)
+	// the ports are probed, released and then taken by the daemon: another process may grab one in
+	// between (several checks run side by side), so a failed start is retried with fresh ports
+	var conf *core.Config
+	var dd *core.DrandDaemon
+	for attempt := 0; ; attempt++ {
+		_, port, _ := net.SplitHostPort(freeAddr())
+		conf = core.NewConfig(w.log,
+			core.WithConfigFolder(work),
+			core.WithPrivateListenAddress(freeAddr()),
+			core.WithControlPort(port),
+			core.WithDBStorageEngine(chain.BoltDB),
+		)
+		dd, err = core.NewDrandDaemon(ctx, conf)
+		if err == nil {
+			break
+		}
+		if attempt >= 5 {
+			return out, fmt.Errorf("NewDrandDaemon: %w", err)
+		}
+		time.Sleep(50 * time.Millisecond)
 	}
 	defer func() {
 		sctx, c := context.WithTimeout(context.Background(), 8*time.Second)
